@@ -358,17 +358,19 @@ theorem decodeLoop_live (app : App) (ctx : Model.Context) (c : Int) :
             refine ⟨rfl, rfl, rfl, fun hd => hd.add _, ?_, fun r h => by rw [inside_add]; exact List.mem_append_left _ h⟩
             intro h; left
             exact h
-          · obtain ⟨e1, e2, e3, e4, e5, e6⟩ := ih _ du' _ inBus' _ outBus' hr
-            refine ⟨e1, e2, e3, fun hd => e4 (hd.add _), ?_, fun r h => e6 r (by rw [inside_add]; exact List.mem_append_left _ h)⟩
-            intro h
-            rcases e5 h with h1 | h1
-            · by_cases hret : (i.instructionType == Gen.InstructionType.Ret) = true
-              · right
-                exact ⟨⟨i, p, p + ctx.sequenceID * 1000#32⟩, e6 _ (by rw [inside_add]; exact List.mem_append_right _ List.mem_cons_self), hret⟩
-              · left
-                simp only [hret, Bool.false_eq_true, if_false] at h1
-                exact h1
-            · exact Or.inr h1
+          · split at hr
+            · rename_i hret
+              simp only [pure, Except.pure, Except.ok.injEq, Prod.mk.injEq] at hr
+              obtain ⟨rfl, rfl, rfl⟩ := hr
+              refine ⟨rfl, rfl, rfl, fun hd => hd.add _, ?_, fun r h => by rw [inside_add]; exact List.mem_append_left _ h⟩
+              intro _; right
+              exact ⟨⟨i, p, p + ctx.sequenceID * 1000#32⟩, by rw [inside_add]; exact List.mem_append_right _ List.mem_cons_self, hret⟩
+            · obtain ⟨e1, e2, e3, e4, e5, e6⟩ := ih _ du' _ inBus' _ outBus' hr
+              refine ⟨e1, e2, e3, fun hd => e4 (hd.add _), ?_, fun r h => e6 r (by rw [inside_add]; exact List.mem_append_left _ h)⟩
+              intro h
+              rcases e5 h with h1 | h1
+              · exact Or.inl h1
+              · exact Or.inr h1
 
 theorem cuBusLoop_inBus (c : Int) : ∀ (n : Nat) (st : CuSt),
     (cuBusLoop c n st).inBus.buffer = st.inBus.buffer ∧ (cuBusLoop c n st).inBus.queueLength = st.inBus.queueLength := by
